@@ -327,6 +327,22 @@ fn run_case_inner(case: &Case, c: &mut Cluster) -> CaseReport {
             format!("live nodes did not converge within 90 s after all faults were healed: {}; node logs: 1: {} 2: {} 3: {}", e, c.log_tail(0), c.log_tail(1), c.log_tail(2)).chars().take(3000).collect::<String>(),
         );
     }
+    // the sentinel writes of the harness (one fresh key each) are ordinary log entries: all nodes agree on them too
+    {
+        let mut views = vec![];
+        for nd in 0..3 {
+            match c.nudge_view(nd) {
+                Ok(v) => views.push(v),
+                Err(e) => return CaseReport::violation(labels.into_iter().collect(), true, format!("GET sentinel keys on node {}: {}", nd + 1, e)),
+            }
+        }
+        for nd in 1..3 {
+            if views[nd] != views[0] {
+                let diff: Vec<String> = views[0].iter().filter(|(k, v)| views[nd].get(*k) != Some(*v)).map(|(k, v)| format!("{}: node1={:?} node{}={:?}", k, v, nd + 1, views[nd].get(k))).take(6).collect();
+                return CaseReport::violation(labels.into_iter().collect(), true, format!("nodes settled on different contents for sentinel keys: {:?}", diff));
+            }
+        }
+    }
     for k in 0..4 {
         let (t, g, d) = KEYS[k];
         let mut vals: Vec<Option<String>> = vec![];
@@ -403,6 +419,10 @@ fn run_case_inner(case: &Case, c: &mut Cluster) -> CaseReport {
 }
 
 pub fn main(ctx: &Ctx) -> i32 {
+    // real clusters: one case legitimately takes minutes (formation, time-outs, re-runs for classification)
+    if std::env::var("RNV_CASE_TIMEOUT_MS").is_err() {
+        std::env::set_var("RNV_CASE_TIMEOUT_MS", "600000");
+    }
     let work = work_dir(ctx);
     let fin = || Finish {
         level: "exploration",
